@@ -29,12 +29,17 @@ SIMPLE_DECODERS = [
     "multidecoder.keyword.find_keywords",
     "multidecoder.keyword.find_all",
     "multidecoder.keyword.is_mixed_case",
+    "multidecoder.decoders.network.is_domain",
+    "multidecoder.decoders.network.domain_is_false_positive",
+    "multidecoder.decoders.network.find_domains",
+    "multidecoder.decoders.network.find_emails",
+    "multidecoder.decoders.network.find_ips",
 ]
 SHELL_FUNCS = ["multidecoder.decoders.shell.strip_carets", "multidecoder.decoders.shell.deobfuscate_cmd"]
 
 NOT_UNDER_CONTRACT = (
-    "decoders not (yet) under a deductive contract and covered only by the run-time DecoderOK stand-in: network.find_domains/find_emails/find_ips/find_urls "
-    "(+ parse_url, parse_authority, normalize_*), path.find_windows_path (ntpath), pe_file.find_pe_files (pefile), powershell.find_powershell_bytes (xortool floats), "
+    "decoders not (yet) under a deductive contract and covered only by the run-time DecoderOK stand-in: network.find_urls "
+    "(+ parse_url, parse_authority, normalize_*; is_ip / parse_ip carry an ASSUMED contract about ipaddress / socket), path.find_windows_path (ntpath), pe_file.find_pe_files (pefile), powershell.find_powershell_bytes (xortool floats), "
     "shell.find_powershell_strings"
 )
 
